@@ -121,6 +121,19 @@ REGISTRY = {
         'assumptions': ['handlers are the command tasks spawned by schedule_net_service; producers only call Sender::send'],
         'trusted': ['modelled, not verified: tokio::sync::broadcast, tokio task scheduling'],
     },
+    'C16': {
+        'needs_binaries': True,
+        'rule': 'the real glonaxd binary (rebuilt from /repo with --features glonax/verif) on the emulated bus with 4 configurations (one HCU; the two shipped driver lists on two networks; two HCUs + encoder; no HCU): SIGTERM (SIGINT every 5th run) 0/5/12/27/50/500 ms after the daemon is up, with 0-3 clients connected (failsafe and streaming sessions) and during bursts of 10/40/200 motion commands (16 runs quick / 200 thorough, in parallel); '
+                'observed: exit status, time from signal to exit (< 5 s), one motion-reset frame (PGN 45824 Z C FF FF 01) per hydraulic unit after the signal, no datagram after exit; compared with the model outcome; non-trivial = configuration with a hydraulic unit; distinct by case text',
+        'exhaustive': {'quick': False, 'thorough': False},
+        'level_text': 'PARTIAL. Theorems C16_teardown_frames (every configuration: teardown = one motion reset per HCU, in order), C16_reset_frame_bytes (the C02 bytes), C16_recv_task_teardown, C16_quiescent and the variant C16_bounded_steps / C16_initial_bound (after the signal every effective step of every task strictly decreases a measure that starts at 3 per task) are proved about a labelled-transition model of Runtime::schedule_* for EVERY schedule and every insertion point of the signal; '
+                      'the wall-clock bound (5 s), kernel signal delivery and tokio\'s real fairness are only observed on runs of the real binary.',
+        'level_note': 'partial (DESIGN section 7): the LTS abstracts each task to loop / teardown / done with at most one partial loop body after the signal; a signal that arrives before register_shutdown_signal has installed its handlers is outside the explored domain (the harness waits for the address claim of every network). Trusted: kernel, extraction, drv.ml, harness.',
+        'technique': 'Rocq proof (LTS safety + variant function) + black-box runs of the real daemon under SIGTERM/SIGINT on the emulated bus',
+        'explanation': 'six theorems in Properties/C16.v',
+        'assumptions': ['weak fairness of the tokio scheduler', 'signal handlers installed (daemon up)'],
+        'trusted': ['modelled, not verified: tokio select!/broadcast shutdown delivery, signal handling, process exit'],
+    },
     'C17': {
         'rule': 'real Filter::matches (accept and reject policy): empty list, every single item over all 16 specified-field combinations x every hit/miss pattern against 68 identifiers covering PDU1/PDU2, priorities, addresses; 2- and 3-item lists sampled (30k quick / 400k thorough per policy) biased towards fully matching entries; '
                 'real CANSocket::send through the verif seam: the raw 16-byte can_frame datagram for every length 0..8 and id-bit class; real CANSocket::recv + ControlNetwork::recv on injected raw frames for every DLC 0..8 and can_id with bits 29/30/31 set or clear (2k quick / 20k thorough each); results vs extracted model, property predicates evaluated on the real outputs; non-trivial = non-empty filter or marshalling case; distinct by case text',
